@@ -110,6 +110,22 @@ Definition run_spline (kfdx kf0 kfn kseg : list expr) (knots : list (list Z)) : 
   | Some r => dump_segs r
   end.
 
+(* approx on slices (Vec<Segment<T>>, PolyN): equal lengths and every pair related; third output: PartialEq (==) *)
+Definition b2z (b : bool) : Z := if b then 1 else 0.
+Definition run_approx_pw (kabs krel : bexpr) (a b : list (list Z)) (eps rel : Z) : list Z :=
+  let same := Nat.eqb (length a) (length b) in
+  let sl (k : bexpr) (extra : list Z) :=
+    same && forallb (fun p => beval FOps0 (map of_bits (fst p ++ snd p ++ extra)) k) (combine a b) in
+  let eqs := same && forallb (fun p => Nat.eqb (length (fst p)) (length (snd p)) &&
+                                       forallb (fun q => feq (of_bits (fst q)) (of_bits (snd q))) (combine (fst p) (snd p))) (combine a b) in
+  [b2z (sl kabs [eps]); b2z (sl krel [eps; rel]); b2z eqs].
+Definition run_approx_polyn (a b : list Z) (eps rel : Z) : list Z :=
+  let same := Nat.eqb (length a) (length b) in
+  let prs := combine (map of_bits a) (map of_bits b) in
+  [b2z (same && forallb (fun p => f_absdiffeq (fst p) (snd p) (of_bits eps)) prs);
+   b2z (same && forallb (fun p => f_releq (fst p) (snd p) (of_bits eps) (of_bits rel)) prs);
+   b2z (same && forallb (fun p => feq (fst p) (snd p)) prs)].
+
 Definition run_polyn_eval (cs xs : list Z) : list Z :=
   map (fun x => to_bits (polyn_eval fzero ffma (map of_bits cs) (of_bits x))) xs.
 Definition run_polyn_translate (cs : list Z) (v : Z) : list Z :=
